@@ -6,6 +6,7 @@ All rules are all-paths statements over control flow, decided by the worlds data
 from __future__ import annotations
 
 import ast
+import re
 from typing import Dict, List, Optional, Set
 
 from sa.pm import Program, FuncInfo, ClassInfo, dotted, norm, calls_in, walk_no_nested, AnalysisError, kwarg
@@ -102,6 +103,8 @@ class SolveFlow(WorldFlow):
                 self.record(self.events, ("writer-expr", stmt, state, f"_is_solved = {norm(value)}"))
         if target == "self._solution":
             self.record(self.events, ("solution-store", stmt, state, norm(value)))
+        if re.fullmatch(r"self\._?lowerbound_k", target) and self.const_token(value) != "None":
+            self.record(self.events, ("lowerbound-store", stmt, state, norm(value)))
 
     def transfer(self, stmt, state):
         state = super().transfer(stmt, state)
@@ -304,6 +307,16 @@ def k_loop_protocol(prog: Program, rep, RID: str, cname: str, mname: str, starts
                 else:
                     rep.violation(RID, f"{base}:P2-return-true", f"`return {what}` reachable without a proven-optimal model "
                                   f"(state {describe(st, loop_keys)[:200]})", f.loc(node))
+            if kind == "lowerbound-store" and any(x is node for x in ast.walk(loop)):
+                # the cached lower bound may be raised past k only when k was *proven* infeasible: it outlives this call
+                good = [k for k in loop_keys if must(state, k, {INF})]
+                if good:
+                    rep.ok(RID, f"{base}:P5-lowerbound-cache", f"the cached lower bound is raised only after status class {{infeasible}} of {good}", f.loc(node))
+                else:
+                    rep.violation(RID, f"{base}:P5-lowerbound-cache",
+                                  f"`{norm(node)}` inside the search raises the cached lower bound with status classes {describe(state, loop_keys)}: after an "
+                                  "inconclusive run (time limit, unknown status) a later solve() starts above the true minimum and reports a non-minimum result as solved",
+                                  f.loc(node))
             if kind == "fallthrough":
                 rep.ok(RID, f"{base}:P4-fallthrough", "falls off the end (returns None = not solved)", f.loc(), nontrivial=False)
             if kind == "solution-store":
